@@ -766,9 +766,18 @@ def _arg_combine(data, axis, argfunc, keepdims=False):
     vals = data["vals"]
     arg = data["arg"]
     if axis is None:
+        # ``arg`` holds positions in the raveled array.  Visit the candidates in
+        # that order so that ties resolve to the first occurrence, as in NumPy,
+        # and not to the first chunk in block-grid order.
+        order = np.argsort(arg, axis=None, kind="stable")
+        ndim = vals.ndim
+        vals = vals.ravel()[order]
+        arg = arg.ravel()[order]
         local_args = argfunc(vals, axis=axis, keepdims=keepdims)
-        vals = vals.ravel()[local_args]
-        arg = arg.ravel()[local_args]
+        if keepdims:
+            local_args = local_args.reshape((1,) * ndim)
+        vals = vals[local_args]
+        arg = arg[local_args]
     else:
         local_args = argfunc(vals, axis=axis)
         inds = list(np.ogrid[tuple(map(slice, local_args.shape))])
